@@ -87,6 +87,12 @@ Verdict(t) ==
   IF ~OneMolecule(t.base.inner) THEN "OOD not-one-molecule" ELSE
   IF t.poses[1].exc # "" THEN "REJECT Raised:" \o t.kind ELSE
   IF ~(\A i \in DOMAIN t.poses[1].d : AbsV(t.poses[1].d[i]) <= Scale) \/ t.poses[1].d = <<>> THEN "OOD scaling" ELSE
+  \* an atom whose surface some ray of the transform grid crosses more than once (or grazes) has no unique radial description:
+  \* which crossing the root-finder reports may depend on rounding, so differences between poses say nothing (sampled by the
+  \* harness on the base pose); raised poses and ill-formed words are still judged
+  IF t.kind = "mol-atomic" /\ ~t.star /\ bad # {}
+     /\ (\A k \in bad : PoseVerdict(t, k) \in {"REJECT PoseInvariance:rotation:mol-atomic", "REJECT PoseInvariance:translation-permutation:mol-atomic"})
+     THEN "OOD surface-not-star-shaped" ELSE
   IF bad # {} THEN PoseVerdict(t, CHOOSE k \in bad : \A j \in bad : k <= j) ELSE
   IF ~RadialOK(t) THEN "REJECT Radial:" \o t.kind ELSE
   IF \E i \in DOMAIN t.oob : ~NoCrossing(t.oob[i]) THEN "OOD probe-crosses" ELSE
